@@ -291,7 +291,8 @@ def gen_csv(rng, max_cols=6, max_rows=12):
     nrows = rng.randint(1, max_rows)
     nd = rng.randint(0, 9)
     mixed = rng.random() < 0.35
-    t = rng.randint(0, 3) * 10 ** 9 + rng.randint(0, 10 ** 9 - 1)
+    # seconds: small captures, long captures and absolute (epoch based) time stamps — far beyond what a double holds exactly in ns
+    t = rng.choice([rng.randint(0, 3), rng.randint(0, 3), 8400000, 1727600000, 4503600]) * 10 ** 9 + rng.randint(0, 10 ** 9 - 1)
     rows = []
     for _ in range(nrows):
         sec, frac = divmod(t, 10 ** 9)
